@@ -687,6 +687,118 @@ def check_eof(ck, prog):
           % ex.line(bad), key="EOF:io_read")
 
 
+def check_nofatal(ck, prog):
+    """Between io_open_dest() and io_close() in coder_run() the target file exists and is incomplete: every failure has to
+    go back to coder_run() so that io_close(pair, false) removes it (and restores the stdin/stdout flags).  A function
+    that runs in that window must therefore not call message_fatal() (which exits the process on the spot).
+    message_bug() -- "this cannot happen" -- is not counted."""
+    import collections
+    ck.rule("C17-NOFATAL", "no message_fatal() can be reached while the incomplete target file is open")
+    cg = common.callgraph(prog)
+    run = prog.fn("coder_run", "coder.c", target="xz")
+    ck.saw_function(run)
+    # functions called by coder_run after io_open_dest() and before io_close()
+    order = [(ex.line(c) or 0, c.get("fn")) for b, i, e in run.iter_elems() for c in ex.calls(e, into_refs=True) if c.get("fn")]
+    opens = [ln for ln, fn in order if fn == "io_open_dest"]
+    closes = [ln for ln, fn in order if fn == "io_close"]
+    if not opens or not closes:
+        raise AnalysisBroken("coder_run: io_open_dest()/io_close() not found")
+    roots = sorted({fn for ln, fn in order if min(opens) < ln <= max(closes) and fn not in ("io_open_dest",)})
+    if "coder_normal" not in roots:
+        raise AnalysisBroken("coder_run: coder_normal() is not called between io_open_dest() and io_close()")
+    seen = {}
+    dq = collections.deque((r, [r]) for r in roots)
+    while dq:
+        nme, path = dq.popleft()
+        if nme in seen or nme == "message_bug":
+            continue
+        seen[nme] = path
+        for f in prog.functions.get(nme, []):
+            if not f.blocks:
+                continue
+            for c in sorted(cg.callees(f)):
+                if c not in seen:
+                    dq.append((c, path + [c]))
+    bad = seen.get("message_fatal") or seen.get("tuklib_exit")
+    site = None
+    if bad and len(bad) >= 2:
+        g = [f for f in prog.functions.get(bad[-2], []) if f.blocks]
+        if g:
+            for b, i, e in g[0].iter_elems():
+                for c in ex.calls(e, into_refs=True):
+                    if c.get("fn") == bad[-1]:
+                        site = (g[0], c)
+    ck.ob("C17-NOFATAL", "open-target-window", bad is None, common.where(*site) if site else common.where(run),
+          "functions that run while the target is open (%d reachable from %s) never call message_fatal()" % (
+              len(seen), ", ".join(roots)) if bad is None else
+          "%s() can be reached while the incomplete target file is open (%s): the process exits without io_close(pair, false), "
+          "so the partial target is left behind (the next run fails with 'File exists') and the flags of a shared "
+          "stdin/stdout are not restored" % (bad[-1], " -> ".join(bad)), key="NOFATAL:open-target-window")
+
+
+def check_eintr_stdio(ck, prog):
+    """The progress signals (SIGALRM, SIGUSR1, SIGINFO) are handled without SA_RESTART, so any blocking call can fail with
+    EINTR and is retried.  For stdio streams the error indicator is sticky: a retry loop written as
+    `if (ferror(f)) { if (errno == EINTR) continue; ... }` has to clearerr(f) before it continues, otherwise every later
+    (successful) character is thrown away as well and at end of file the loop never terminates (xz --files/--files0:
+    all remaining file names are silently skipped, then 100 % CPU)."""
+    ck.rule("C17-EINTR", "an EINTR retry on a stdio stream clears the stream's error indicator first")
+    n = 0
+    for f in prog.all_functions("xz"):
+        if not f.blocks:
+            continue
+        doms = None
+        for b in f.blocks.values():
+            if not (b.term and "cond" in b.term and len(b.succs) == 2):
+                continue
+            c = ex.strip(b.term["cond"])
+            if not (c.get("k") == "bin" and c["op"] == "==" and "errno" in ex.show(c["l"]) and ex.const_val(c["r"]) == 4):
+                continue
+            doms = doms or cfg.dominators(f)
+            fer = [d for d in doms.get(b.id, ()) if f.blocks[d].term and "cond" in f.blocks[d].term and
+                   any(cc.get("fn") == "ferror" for cc in ex.calls(f.blocks[d].term["cond"]))]
+            if not fer:
+                continue
+            n += 1
+            ck.saw_function(f)
+            # region of the EINTR-true edge up to the loop head (= a dominator of this block)
+            tgt = b.succs[0]
+            seen, st, cleared = set(), [tgt], False
+            while st:
+                x = st.pop()
+                if x in seen or x is None:
+                    continue
+                seen.add(x)
+                if any(cc.get("fn") == "clearerr" for e in f.blocks[x].elems if e is not None for cc in ex.calls(e, into_refs=True)):
+                    cleared = True
+                    continue
+                if x in doms.get(b.id, ()) and x != tgt:
+                    continue        # back at the loop head
+                st.extend(y for y in f.blocks[x].succs if y is not None)
+            # all paths must pass clearerr: check there is no path to a dominator (loop head) avoiding clearerr blocks
+            clr = {x for x in f.blocks if any(cc.get("fn") == "clearerr" for e in f.blocks[x].elems if e is not None
+                                              for cc in ex.calls(e, into_refs=True))}
+            seen, st, escapes = set(), [tgt], False
+            while st:
+                x = st.pop()
+                if x in seen or x is None or x in clr:
+                    continue
+                seen.add(x)
+                if x in doms.get(b.id, ()) and x != b.id:
+                    escapes = True
+                    break
+                st.extend(y for y in f.blocks[x].succs if y is not None)
+            ok = not escapes
+            ck.ob("C17-EINTR", f.name, ok, common.where(f, b.term["cond"]),
+                  "%s: the EINTR retry passes clearerr()" % f.name if ok else
+                  "%s(): after `ferror()` with errno == EINTR the loop continues without clearerr(): the stream's error indicator "
+                  "stays set and errno stays EINTR, so every following character is discarded and at end of input the loop "
+                  "spins for ever (a progress signal during --files/--files0 makes xz skip all remaining names silently)"
+                  % f.name, key="EINTR:" + f.name)
+    if n < 1:
+        raise AnalysisBroken("C17-EINTR: no `ferror()` ... `errno == EINTR` retry found (read_name expected)")
+
+
 def run(ck):
     ck.explanation = (
         "Finite-domain path-sensitive analysis of `success` through io_close (with each I/O primitive forced to "
@@ -704,3 +816,5 @@ def run(ck):
     check_perfile(ck, prog)
     check_exit_sticky(ck, prog)
     check_eof(ck, prog)
+    check_nofatal(ck, prog)
+    check_eintr_stdio(ck, prog)
